@@ -358,6 +358,32 @@ impl Pattern {
     }
 }
 
+/*
+ * Verification hooks (cfg pkgsrc_verif only): expose private helpers so that
+ * an external harness can compare them with a formal model.  Never compiled
+ * in normal builds.
+ */
+#[cfg(pkgsrc_verif)]
+impl Pattern {
+    /// The private quick_pkg_match() shortcut.
+    pub fn verif_quick_pkg_match(pattern: &str, pkg: &str) -> bool {
+        Self::quick_pkg_match(pattern, pkg)
+    }
+    /// The private alternate_match() expansion routine.
+    pub fn verif_alternate_match(pattern: &str, pkg: &str) -> bool {
+        Self::alternate_match(pattern, pkg)
+    }
+    /// Which kind of pattern Pattern::new() selected.
+    pub fn verif_kind(&self) -> &'static str {
+        match self.matchtype {
+            PatternType::Alternate => "alternate",
+            PatternType::Dewey => "dewey",
+            PatternType::Glob => "glob",
+            PatternType::Simple => "simple",
+        }
+    }
+}
+
 #[cfg(test)]
 mod tests {
     use super::*;
